@@ -18,4 +18,12 @@ def static_obligations(loader):
     bad = [dominated_by_literal_seed(c, ch) for c, ch in calls_with_paths(fn) if is_global_draw(c)]
     obs.append({"name": "mustfail:seed-inside-a-branch-does-not-dominate", "kind": "mustfail", "function": "synthetic", "variant": None,
                 "result": "refuted" if bad == [None] else "proved", "backend": "ast-dominance", "seconds": 0.0, "havocked": False})
+    # must-fail twins for deferred draws: a draw inside a lambda / nested function is not dominated by a seed of the enclosing function
+    for nm, src in (("lambda", "def f(self):\n    np.random.seed(3)\n    self.lazy = lambda: np.random.random(4)\n"),
+                    ("nested-def", "def f(self):\n    np.random.seed(3)\n    def g():\n        return np.random.random(4)\n    self.lazy = g\n"),
+                    ("generator", "def f(self):\n    np.random.seed(3)\n    self.lazy = (np.random.random(4) for _ in range(2))\n")):
+        fn = ast.parse(src).body[0]
+        bad = [dominated_by_literal_seed(c, ch) for c, ch in calls_with_paths(fn) if is_global_draw(c)]
+        obs.append({"name": f"mustfail:seed-does-not-dominate-a-draw-deferred-in-a-{nm}", "kind": "mustfail", "function": "synthetic", "variant": None,
+                    "result": "refuted" if bad == [None] else "proved", "backend": "ast-dominance", "seconds": 0.0, "havocked": False})
     return obs
